@@ -459,4 +459,7 @@ func TestVerifC36(t *testing.T) {
 		}
 		vRunCase(rec, c, rec.RNG("case", c.Idx), env.TmpDir)
 	}
+	if only < 0 {
+		vFaultyReaderCases(rec, env.TmpDir)
+	}
 }
